@@ -254,7 +254,7 @@ Qed.
 
 Definition dir_okb (M : list class) : bool :=
   match files M with
-  | Ok fs => forallb (fun nc => dir_name_ok (fst nc) && negb (ends_with_char cSLASH (fst nc))) fs
+  | Ok fs => forallb (fun nc => (dir_name_ok (fst nc) && fs_name_ok (fst nc)) && negb (ends_with_char cSLASH (fst nc))) fs
   | Err => false
   end.
 
